@@ -24,8 +24,7 @@ NOT_APPLICABLE = {
  "C18": "features are pure in (pixels, options); decorators only unwrap and re-wrap",
 }
 
-PENDING = {
-}
+PENDING = {k: 'claimed in DESIGN.md; machine not built yet (listed here only until its check is registered)' for k in ['C03','C06','C08','C09','C10','C11','C15','C16','C19'] if k not in CLAIMED}
 
 def main():
     checks = []
